@@ -944,7 +944,12 @@ func schemaRoles(P *Program) (worker, structFn *ssa.Function) {
 			continue
 		}
 		res := fn.Signature.Results()
-		if res.Len() != 2 || typeKey(res.At(0).Type()) != "avro.Schema" || !isErrorType(res.At(1).Type()) {
+		if res.Len() != 2 || !isErrorType(res.At(1).Type()) {
+			continue
+		}
+		// (Schema, error), or a helper returning part of one: ([]SchemaRecordField, error)
+		isSchemaResult := typeKey(res.At(0).Type()) == "avro.Schema"
+		if !isSchemaResult && !strings.HasPrefix(strings.TrimPrefix(typeKey(res.At(0).Type()), "[]"), "avro.Schema") {
 			continue
 		}
 		var typ *ssa.Parameter
@@ -978,7 +983,7 @@ func schemaRoles(P *Program) (worker, structFn *ssa.Function) {
 				hasNumField = true
 			}
 		}
-		if len(kinds) >= 5 && len(kinds) > bestN {
+		if isSchemaResult && len(kinds) >= 5 && len(kinds) > bestN {
 			worker, bestN = fn, len(kinds)
 		}
 		if hasField && hasNumField {
